@@ -106,6 +106,217 @@ def _canon_block(stmts):
     return "; ".join(out)
 
 
+class _Fmt:
+    def __init__(self, bits):
+        self.bits = bits
+        self.p = {16: 11, 32: 24, 64: 53}[bits]
+        self.emax = {16: 15, 32: 127, 64: 1023}[bits]
+        self.emin = 1 - self.emax
+        self.esub = self.emin - self.p + 1  # exponent of the smallest subnormal
+
+
+class _P2:
+    """Exactly 2**k in the format (0 when it underflows, inf when it overflows)."""
+    __absint_host__ = True
+
+    def __init__(self, fmt, k):
+        self.fmt = fmt
+        self.kind = "zero" if k < fmt.esub else "inf" if k > fmt.emax else "p2"
+        self.k = k
+        self.__absint_type__ = _Dt(fmt)
+
+    def __repr__(self):
+        return {"zero": "0", "inf": "inf"}.get(self.kind, f"2**{self.k}")
+
+
+class _Special:
+    __absint_host__ = True
+
+    def __init__(self, fmt, kind, sign=1):
+        self.fmt, self.kind, self.sign = fmt, kind, sign
+        self.__absint_type__ = _Dt(fmt)
+
+    def __eq__(self, o):
+        return self.kind == "zero" and o == 0
+
+    def __ne__(self, o):
+        return not self.__eq__(o)
+
+    def __lt__(self, o):
+        if o != 0:
+            raise TypeError("comparison with a non-zero value is not modelled")
+        return self.kind == "inf" and self.sign < 0
+
+    def __neg__(self):
+        return _Special(self.fmt, self.kind, -self.sign)
+
+    __hash__ = None
+
+    def __repr__(self):
+        return ("-" if self.sign < 0 else "") + self.kind
+
+
+class _Binade:
+    """All finite non-zero floats of one sign whose frexp exponent is E, i.e. |x| in [2**(E-1), 2**E)."""
+    __absint_host__ = True
+
+    def __init__(self, fmt, E, sign=1):
+        self.fmt, self.E, self.sign = fmt, E, sign
+        self.__absint_type__ = _Dt(fmt)
+
+    def __eq__(self, o):
+        if o == 0:
+            return False
+        raise TypeError("equality with a non-zero value is not modelled")
+
+    def __ne__(self, o):
+        return not self.__eq__(o)
+
+    __hash__ = None
+
+    def _cmp0(self, o):
+        if not (isinstance(o, (int, float)) and o == 0):
+            raise TypeError("comparison with a non-zero value is not modelled")
+
+    def __lt__(self, o):
+        self._cmp0(o)
+        return self.sign < 0
+
+    def __le__(self, o):
+        return self.__lt__(o)
+
+    def __gt__(self, o):
+        self._cmp0(o)
+        return self.sign > 0
+
+    def __ge__(self, o):
+        return self.__gt__(o)
+
+    def __neg__(self):
+        return _Binade(self.fmt, self.E, -self.sign)
+
+    def __abs__(self):
+        return _Binade(self.fmt, self.E, 1)
+
+    def __repr__(self):
+        return f"{'-' if self.sign < 0 else ''}[2**{self.E - 1}, 2**{self.E})"
+
+
+class _Dt:
+    __absint_host__ = True
+
+    def __init__(self, fmt):
+        self.fmt = fmt
+        self.__name__ = f"float{fmt.bits}"
+
+    def __call__(self, v=0):
+        if isinstance(v, str):
+            v = float(v)
+        if isinstance(v, (int, float)):
+            if v != v:
+                return _Special(self.fmt, "nan")
+            if v in (float("inf"), float("-inf")):
+                return _Special(self.fmt, "inf", 1 if v > 0 else -1)
+            if v == 0:
+                return _Special(self.fmt, "zero")
+            import math
+            m, e = math.frexp(v)
+            if m == 0.5:
+                return _P2(self.fmt, e - 1)
+        raise TypeError(f"dtype({v!r}) is not modelled")
+
+    def __eq__(self, o):
+        return isinstance(o, _Dt) and o.fmt.bits == self.fmt.bits
+
+    def __hash__(self):
+        return hash(self.fmt.bits)
+
+
+class _Finfo:
+    __absint_host__ = True
+
+    def __init__(self, dt):
+        f = dt.fmt
+        self.negep, self.machep, self.nmant, self.minexp, self.maxexp, self.bits = -f.p, 1 - f.p, f.p - 1, f.emin, f.emax + 1, f.bits
+        self.smallest_subnormal = _P2(f, f.esub)
+        self.tiny = self.smallest_normal = _P2(f, f.emin)
+        self.eps = _P2(f, 1 - f.p)
+
+
+def check_ulp_by_binade(r, repo, rule="R14.5"):
+    """ulp(x) is decided for every float: the source of utils.ulp is interpreted once per (format, sign, binade) on an abstract
+    value standing for all floats of that binade (frexp returns the binade's exponent, ldexp of a power of two is a power of two
+    that underflows below the smallest subnormal), plus the special values.  The documented identities x + ulp(x) ==
+    nextafter(x, inf) for x >= 0 and x - ulp(x) == nextafter(x, -inf) for x < 0 hold exactly when ulp(x) is the spacing of x's
+    binade: 2**(E - p) for normal values and the smallest subnormal below the normal range."""
+    from sa.absint import Interp, Closure, Unsupported as IUnsupported, PyRaise
+
+    u = repo.func(REL, "ulp")
+
+    def frexp(x):
+        if isinstance(x, _Binade):
+            return ("MANTISSA", x.E)
+        if isinstance(x, _P2) and x.kind == "p2":
+            return (0.5, x.k + 1)
+        raise TypeError("frexp of a special value is not modelled")
+
+    def ldexp(x, e):
+        if isinstance(x, _P2) and x.kind == "p2" and isinstance(e, int):
+            return _P2(x.fmt, x.k + e)
+        raise TypeError(f"ldexp({x!r}, {e!r}) is not modelled")
+
+    ext = {
+        "numpy.frexp": frexp, "numpy.ldexp": ldexp, "numpy.finfo": _Finfo,
+        "numpy.isinf": lambda x: isinstance(x, _Special) and x.kind == "inf" or (isinstance(x, _P2) and x.kind == "inf"),
+        "numpy.isnan": lambda x: isinstance(x, _Special) and x.kind == "nan",
+        "numpy.isfinite": lambda x: isinstance(x, (_Binade,)) or (isinstance(x, _Special) and x.kind == "zero") or (isinstance(x, _P2) and x.kind != "inf"),
+        "numpy.isposinf": lambda x: isinstance(x, _Special) and x.kind == "inf" and x.sign > 0,
+        "numpy.isneginf": lambda x: isinstance(x, _Special) and x.kind == "inf" and x.sign < 0,
+        "numpy.signbit": lambda x: x.sign < 0,
+        "numpy.abs": abs, "numpy.absolute": abs,
+    }
+
+    def interpret(x):
+        I = Interp(repo)
+        I.ext_calls = ext
+        try:
+            return I.call(Closure(u, {}, I, REL, bound_self=None), [x])
+        except (IUnsupported, PyRaise, TypeError) as e:
+            raise AnalysisError(f"utils.ulp is not interpretable on {x!r}: {getattr(e, 'what', e)}")
+
+    n = 0
+    for bits in (16, 32, 64):
+        fmt = _Fmt(bits)
+        bad = []
+        for sign in (1, -1):
+            for E in range(fmt.esub + 1, fmt.emax + 2):
+                got = interpret(_Binade(fmt, E, sign))
+                want = max(E - fmt.p, fmt.esub)
+                n += 1
+                if not (isinstance(got, _P2) and got.kind == "p2" and got.k == want):
+                    bad.append((sign, E, got, want))
+        if bad:
+            lo, hi = min(b[1] for b in bad), max(b[1] for b in bad)
+            s_, E, got, want = bad[0]
+            kind = "subnormal " if hi - 1 < fmt.emin else ""
+            r.ob(rule, f"{REL}::ulp float{bits} {kind}binades E={lo}..{hi}", False,
+                 f"{len(bad)} (sign, binade) classes are wrong, e.g. for {'-' if s_ < 0 else ''}x in [2**{E - 1}, 2**{E}) ulp returns {got!r}, the spacing there is 2**{want}; "
+                 f"x + ulp(x) == nextafter(x, inf) fails for every such x", loc(REL, u), sample=dict(rule=rule, bits=bits, E=E, got=repr(got), want=want))
+        else:
+            r.ob(rule, f"{REL}::ulp float{bits} all finite non-zero binades", True, f"{2 * (fmt.emax + 1 - fmt.esub)} (sign, binade) classes: ulp = spacing of the binade", loc(REL, u))
+        for x, want in ((_Special(fmt, "zero"), ("p2", fmt.esub)), (_Special(fmt, "inf", 1), ("inf", None)), (_Special(fmt, "inf", -1), ("inf", None)), (_Special(fmt, "nan"), ("nan", None))):
+            got = interpret(x)
+            n += 1
+            if want[0] == "p2":
+                ok = isinstance(got, _P2) and got.kind == "p2" and got.k == want[1]
+            elif want[0] == "inf":
+                ok = (isinstance(got, _Special) and got.kind == "inf" and got.sign > 0) or (isinstance(got, _P2) and got.kind == "inf")
+            else:
+                ok = isinstance(got, _Special) and got.kind == "nan"
+            r.ob(rule, f"{REL}::ulp float{bits} at {x!r}", ok, f"ulp({x!r}) = {got!r}", loc(REL, u))
+    r.info(rule, f"utils.ulp interpreted on {n} abstract arguments (one per format, sign and binade, plus zero, infinities and NaN)")
+
+
 def run(repo, tier):
     r = Report("C14", tier, repo, level="other", design_ref="§3/C14")
     r.explanation = (
@@ -122,7 +333,7 @@ def run(repo, tier):
     r.rule("R14.2", "complex distance = max(distance of real parts, distance of imaginary parts)", floor=1)
     r.rule("R14.3", "sequence branches pair elements positionally and forward flush_subnormals and equal_nan", floor=3)
     r.rule("R14.4", "sign taken before abs(); zero has sign 0; integer views of absolute values; out-of-range marker 2**bits", floor=4)
-    r.rule("R14.5", "ulp(x) = ldexp(1, frexp(x)[1] + negep); smallest_subnormal at 0; ulp(-x) = ulp(x)", floor=3)
+    r.rule("R14.5", "ulp(x) is the spacing of x's binade for every finite x (so the documented nextafter identities hold), smallest subnormal at 0, inf at infinities, NaN at NaN", floor=15)
 
     f = repo.func(REL, "diff_ulp")
     scalar = None
@@ -196,17 +407,5 @@ def run(repo, tier):
     eqinf = any(isinstance(n, ast.If) and _canon_expr(n.test) == _canon_expr(ast.parse("ix == iy and sx == sy", mode="eval").body) and any(isinstance(x, ast.Return) and norm_src(x.value) == "0" for x in n.body) for n in ast.walk(scalar))
     r.ob("R14.4", f"{REL}::diff_ulp identical non-finite values have distance 0", eqinf, "`elif ix == iy and sx == sy: return 0` not found", loc(REL, scalar))
     # ---- R14.5 ulp
-    u = repo.func(REL, "ulp")
-    rets = {}
-    for n in ast.walk(u):
-        if isinstance(n, ast.If):
-            rr = [x for x in n.body if isinstance(x, ast.Return)]
-            if rr:
-                rets[norm_src(n.test)] = norm_src(rr[0].value)
-    last = [st for st in u.body if isinstance(st, ast.Return)]
-    r.ob("R14.5", f"{REL}::ulp at zero", rets.get("x == 0") == "numpy.finfo(dtype).smallest_subnormal", f"ulp(0) returns {rets.get('x == 0')}", loc(REL, u))
-    r.ob("R14.5", f"{REL}::ulp is even", rets.get("x < 0") == "ulp(-x)", f"ulp(x<0) returns {rets.get('x < 0')}", loc(REL, u))
-    fin = norm_src(last[0].value) if last else None
-    r.ob("R14.5", f"{REL}::ulp formula", fin in ("numpy.ldexp(dtype(1), numpy.frexp(x)[1] + numpy.finfo(dtype).negep)", "numpy.ldexp(dtype(1), numpy.finfo(dtype).negep + numpy.frexp(x)[1])"),
-         f"ulp(x) = {fin}; with x = m*2**e, m in [0.5, 1), the unit in the last place is 2**(e - p) = ldexp(1, e + negep)", loc(REL, u))
+    check_ulp_by_binade(r, repo)
     return r
